@@ -227,12 +227,13 @@ class CdsShortTimestamp(CcsdsTimeProvider):
         instance = cls.empty(False)
         instance._datetime = dt
         instance._unix_seconds = dt.timestamp()
-        full_unix_secs = int(math.floor(instance._unix_seconds))
-        subsec_millis = int((instance._unix_seconds - full_unix_secs) * 1000)
-        unix_days = int(full_unix_secs / SECONDS_PER_DAY)
-        secs_of_day = full_unix_secs % SECONDS_PER_DAY
-        instance._ms_of_day = secs_of_day * 1000 + subsec_millis
-        instance._ccsds_days = convert_unix_days_to_ccsds_days(unix_days)
+        # Integer arithmetic on the timedelta to the Unix epoch. A timedelta is normalised
+        # so that only the days can be negative.
+        delta = dt.astimezone(datetime.timezone.utc) - datetime.datetime(
+            1970, 1, 1, tzinfo=datetime.timezone.utc
+        )
+        instance._ms_of_day = delta.seconds * 1000 + delta.microseconds // 1000
+        instance._ccsds_days = convert_unix_days_to_ccsds_days(delta.days)
         return instance
 
     @classmethod
